@@ -181,7 +181,8 @@ func checkLockLeaks(w *World, r *Report, la *lockAnalysis, rule string) {
 				return
 			}
 			if k, acq, _, ok := la.lockOp(in); ok {
-				if acq && held[k] {
+				base := lockKey(strings.TrimSuffix(string(k), "#r"))
+				if acq && (held[base] || held[base+"#r"]) {
 					nRe++
 					r.bad(rule, ssaName(fn), "lock "+string(k)+" is not acquired while it is held", w.posOf(in.Pos()), "the mutex is locked again by the goroutine that already holds it (sync mutexes are not re-entrant): the call never returns and every later use of the lock blocks behind it")
 				}
@@ -205,8 +206,13 @@ func checkLockLeaks(w *World, r *Report, la *lockAnalysis, rule string) {
 				if e.Site != c || !w.inPkg(e.Callee.Func) {
 					continue
 				}
-				for k := range held {
-					if where, can := mayAcquire[e.Callee.Func][k]; can {
+				for hk := range held {
+					k := lockKey(strings.TrimSuffix(string(hk), "#r"))
+					where, can := mayAcquire[e.Callee.Func][k]
+					if !can {
+						where, can = mayAcquire[e.Callee.Func][k+"#r"]
+					}
+					if can {
 						nRe++
 						r.bad(rule, ssaName(fn), "lock "+string(k)+" is not acquired while it is held", w.posOf(in.Pos()), "the call to "+ssaName(e.Callee.Func)+" is made while "+string(k)+" is held and can lock it again in "+where+" (sync mutexes are not re-entrant): on that path the call never returns, and every later use of the lock blocks behind it")
 						return
